@@ -6,6 +6,11 @@ set -u
 wt="$1"; crate="$2"; demo="$3"
 cd "$wt" || exit 2
 export CARGO_TARGET_DIR="$wt/target"
+# the tested state is exactly HEAD + SEED/patch.diff (+ the untracked demo files): tracked files are
+# reset first, so that a stray edit in the worktree (e.g. another agent's `git stash pop` - the stash
+# is shared by all worktrees of one repository) cannot take part in the confirmation
+git checkout -q -- . || exit 2
+git apply SEED/patch.diff || { echo "SEED/patch.diff does not apply to HEAD"; exit 2; }
 echo "== suite with patch (demo target excluded from the count)"
 cargo test --workspace --no-fail-fast --offline 2>&1 | grep -E "^(     Running|test result)" | paste - - | grep -v "$demo" | awk '{for(i=1;i<=NF;i++){if($i=="passed;")p+=$(i-1); if($i=="failed;")f+=$(i-1)}} END {print "   pre-existing targets: " p " passed, " f " failed"}'
 echo "== demo with patch"
